@@ -64,7 +64,17 @@ type structInterface interface {
 // isStruct returns true if the given type is a struct that embeds our
 // struct marker.
 func isStruct(t reflect.Type) bool {
+	// A pointer type can be defined in terms of itself (type P *P), so we
+	// only follow pointers to types we haven't seen yet.
+	var seen map[reflect.Type]struct{}
 	for t.Kind() == reflect.Ptr {
+		if _, ok := seen[t]; ok {
+			return false
+		}
+		if seen == nil {
+			seen = map[reflect.Type]struct{}{}
+		}
+		seen[t] = struct{}{}
 		t = t.Elem()
 	}
 
